@@ -1042,7 +1042,14 @@ class Exec:
             return out
         return [Outcome(st, r)]
 
+    _NORM = [('std::string::String', 'String'), ('std::vec::Vec', 'Vec'), ('std::option::Option', 'Option'),
+             ('std::result::Result', 'Result'), ('std::boxed::Box', 'Box'), ('std::collections::HashMap', 'HashMap'),
+             ('std::collections::HashSet', 'HashSet'), ('std::collections::BTreeSet', 'BTreeSet')]
+
     def call(self, st, fr, callee, args, depth):
+        for a_, b_ in self._NORM:       # some crates' MIR prints std paths in full
+            if a_ in callee:
+                callee = callee.replace(a_, b_)
         for pat, fn in self.models:
             if pat.search(callee):
                 self.stats['models_used'][pat.pattern] = self.stats['models_used'].get(pat.pattern, 0) + 1
